@@ -137,6 +137,13 @@ pub mod sync {
         pub use std::sync::atomic::Ordering;
         use std::sync::atomic as std_atomic;
 
+        /// Memory fence: executions are sequentially consistent here, so only a fine point.
+        #[inline]
+        pub fn fence(o: Ordering) {
+            fine_point(pt::ATOMIC_RMW);
+            std_atomic::fence(o)
+        }
+
         macro_rules! atomic_int {
             ($name:ident, $std:ident, $t:ty) => {
                 /// Facade atomic.
